@@ -294,6 +294,7 @@ pub fn run(run: &Run) {
             let opts = BfsOptions { max_states: Some(if thorough { 5_000_000 } else { 500_000 }), ..Default::default() };
             let gg = Bounded { inner: &g, wcap: wmax };
             let (stats, viols) = bfs(&gg, vec![init], &opts);
+            run.sample_paths(if kind == 0 { "server session, window graph" } else { "client session, window graph" }, &stats.sample_paths);
             ts += stats.states;
             tt += stats.transitions;
             ti += stats.impl_steps;
